@@ -216,7 +216,30 @@ impl DocumentBuilder<'_> {
     }
 
     pub fn input_value_for_type(&mut self, ty: &Ty) -> ArbitraryResult<InputValue> {
-        let gen_val = |doc_builder: &mut DocumentBuilder<'_>| -> ArbitraryResult<InputValue> {
+        self.input_value_for_type_inner(ty, &mut Vec::new())
+    }
+
+    /// `path`: the input objects whose value is being generated around this one
+    fn input_value_for_type_inner(
+        &mut self,
+        ty: &Ty,
+        path: &mut Vec<Name>,
+    ) -> ArbitraryResult<InputValue> {
+        if path.contains(ty.name()) {
+            // A reference back to an input object that is being generated
+            // (`input In { c: In }` is valid): end the recursion with the
+            // smallest value of the type.
+            return Ok(match ty {
+                Ty::List(_) => InputValue::List(Vec::new()),
+                Ty::NonNull(inner) if matches!(**inner, Ty::List(_)) => {
+                    InputValue::List(Vec::new())
+                }
+                _ => InputValue::Null,
+            });
+        }
+        let gen_val = |doc_builder: &mut DocumentBuilder<'_>,
+                       path: &mut Vec<Name>|
+         -> ArbitraryResult<InputValue> {
             if ty.is_builtin() {
                 match ty.name().name.as_str() {
                     "String" => Ok(InputValue::String(doc_builder.limited_string(1000)?)),
@@ -249,17 +272,18 @@ impl DocumentBuilder<'_> {
                     .filter(|io| &io.name == ty.name())
                     .flat_map(|io| io.fields.iter().cloned())
                     .collect();
-                Ok(InputValue::Object(
-                    fields
-                        .iter()
-                        .map(|field_def| {
-                            Ok((
-                                field_def.name.clone(),
-                                doc_builder.input_value_for_type(&field_def.ty)?,
-                            ))
-                        })
-                        .collect::<ArbitraryResult<Vec<_>>>()?,
-                ))
+                path.push(ty.name().clone());
+                let fields = fields
+                    .iter()
+                    .map(|field_def| {
+                        Ok((
+                            field_def.name.clone(),
+                            doc_builder.input_value_for_type_inner(&field_def.ty, path)?,
+                        ))
+                    })
+                    .collect::<ArbitraryResult<Vec<_>>>();
+                path.pop();
+                Ok(InputValue::Object(fields?))
             } else if doc_builder
                 .scalar_type_defs
                 .iter()
@@ -273,16 +297,16 @@ impl DocumentBuilder<'_> {
         };
 
         let val = match ty {
-            Ty::Named(_) => gen_val(self)?,
+            Ty::Named(_) => gen_val(self, path)?,
             Ty::List(_) => {
                 let nb_elt = self.u.int_in_range(1..=25usize)?;
                 InputValue::List(
                     (0..nb_elt)
-                        .map(|_| gen_val(self))
+                        .map(|_| gen_val(self, path))
                         .collect::<ArbitraryResult<Vec<InputValue>>>()?,
                 )
             }
-            Ty::NonNull(_) => gen_val(self)?,
+            Ty::NonNull(_) => gen_val(self, path)?,
         };
 
         Ok(val)
